@@ -482,9 +482,13 @@ func runC14(c *core.Ctx) {
 		}
 		// full-memory race pass (the happens-before check does not need the two accesses to be
 		// interleaved, so small bounds already expose every race on a path the threads execute)
-		memJobs = append(memJobs, c14Job{s, 2, core.Pick(c, 1, 3), core.Pick(c, 1, 4)})
+		mb2, mb3 := core.Pick(c, 1, 3), core.Pick(c, 1, 2)
+		if veryHeavy {
+			mb2, mb3 = core.Pick(c, 1, 2), 1 // every execution of S7 checks about a million memory accesses
+		}
+		memJobs = append(memJobs, c14Job{s, 2, mb2, core.Pick(c, 1, 4)})
 		if len(s.Ops) >= 3 {
-			memJobs = append(memJobs, c14Job{s, 3, core.Pick(c, 1, 2), core.Pick(c, 2, 16)})
+			memJobs = append(memJobs, c14Job{s, 3, mb3, core.Pick(c, 2, 16)})
 		}
 		if len(s.Ops) >= 3 && (!c.Quick() || os.Getenv("C14_UNBOUNDED_ONLY") != "") && os.Getenv("C14_TWO_ONLY") == "" {
 			jobs = append(jobs, c14Job{s, 3, -1, 1})
